@@ -7,14 +7,22 @@ import random, re
 PID = 'C14'
 HEADER = []
 T0 = 2000000000
+JSON_DEPTH_LIMIT = 128      # l_MaxJsonNestingDepth (lib/base/json.cpp), only used to CLASSIFY a hit as the recorded finding
 TIMEOUT = 1500
-RULE = ('four families. modattr-*: a Host with random nested vars (depth<=3, empty containers, keys with dots/quotes/UTF-8), '
+RULE = ('families. modattr-*: a Host with random nested vars (depth<=3, empty containers, keys with dots/quotes/UTF-8), '
         'then <=5 ModifyAttribute/RestoreAttribute calls on existing leaf / existing dictionary / missing / too-deep / top-level / '
         'invalid paths, aimed at the case splits of the proofs (old value dictionary or not, path recorded or not, parent or child '
         'already modified); dma-*: modifications, DumpModifiedAttributes, fresh object, evaluation of the written file; '
         'state-*: 1-3 passive check results with random command/perfdata/output (clean and with a "type" key), acknowledgement, '
         'executions, DumpObjects, fresh objects, RestoreObjects, whole Serialize(FAState) compared; atomic: strace of the second '
         'write of state file / modified-attributes.conf / runtime object file and SIGKILL at the n-th open/write/fsync/close/rename. '
+         'pop-history: 2-5 objects with own vars and own pairwise incomparable paths, modify/restore interleaved at different virtual '
+        'times, DumpModifiedAttributes + reload or the whole stop/start cycle (state file + modified-attributes.conf), per-object '
+        'values / original_attributes / version compared; state-big-*: strings of 4 KiB-1 .. 1 MiB+1 (thorough: .. 10 MB) with '
+        'escape-heavy and multi-byte patterns in output / command / performance_data / executions, one record above 1 MiB in every '
+        'run, arrays and dictionaries with 10^5 entries, 1000 objects in one state file, nesting 123..127 (thorough 1..1000) around '
+        'the JSON decoder limit; atomic-fault: the n-th write/fsync/rename/openat/chmod of a persisting write fails with '
+        'ENOSPC/EIO/EDQUOT/EACCES/EMFILE/EPERM (strace inject=...:error=...), process must go on, file old or new and loadable. '
         'non-trivial = at least one modify, dump or traced write; distinct = distinct script text')
 TRUSTED = ['model: coq/Persist/PsModel.v (transcription of ConfigObject::ModifyAttribute/RestoreAttribute/DumpModifiedAttributes, '
            'serializer.cpp Serialize/Deserialize, AtomicFile system-call pattern)',
@@ -76,6 +84,14 @@ def parse(s):
         if c == 'D': return ('num', tok())
         if c == 'S': return ('str', tok())
         if c == 'O': return ('obj', tok())
+        if c == 'R': return ('rep', tok())                      # R<n>x<hex>: a long string, kept symbolic
+        if c in 'GKWV':                                         # G<n>(v) K<n>(v) W<k>(v) V<k>(v): kept symbolic
+            j = pos[0]
+            while s[j].isdigit(): j += 1
+            n = int(s[pos[0]:j]); pos[0] = j + 1
+            x = val()
+            pos[0] += 1
+            return ('big', c, n, x)
         if c == 'A':
             pos[0] += 1
             items = []
@@ -103,7 +119,18 @@ def has_type_key(v):
         return '74797065' in v or any(has_type_key(x) for x in v.values())
     if isinstance(v, list):
         return any(has_type_key(x) for x in v)
+    if isinstance(v, tuple) and v[0] == 'big':
+        return has_type_key(v[3])
     return False
+
+
+def depth(v):
+    """nesting depth of the JSON text of a parsed value (containers on the deepest path)"""
+    if isinstance(v, dict): return 1 + max([depth(x) for x in v.values()] or [0])
+    if isinstance(v, list): return 1 + max([depth(x) for x in v] or [0])
+    if isinstance(v, tuple) and v[0] == 'big':
+        return (v[2] if v[1] in 'WV' else 1) + depth(v[3])
+    return 0
 
 
 def round6(v):
@@ -307,6 +334,134 @@ def mk_state_case(rnd, typekey):
     return {'lines': lines, 'tags': {'family': 'state-typekey' if typekey else 'state-clean'}}
 
 
+def mk_population(rnd):
+    """the shape C14_population_reload / C14_population_restart are about: 2-5 objects, each with its own configured vars and its
+    own set of pairwise incomparable scalar paths, modified and restored in ANY interleaving at DIFFERENT virtual times
+    (so every object has its own version), dump + reload (ps_dma) or the whole stop/start cycle (ps_restart) in between,
+    restore-all in random order, final dump that must replay to nothing"""
+    n = rnd.randint(2, 5)
+    strs = [x for x in STRS if '\n' not in x]
+    head = 'ps_mnew n=%d' % n
+    paths = []
+    for i in range(n):
+        vars0 = gen_dict(rnd, 3, n=rnd.choice((1, 2, 3)), strs=strs)
+        leaf, dicts = [], []
+        leaf_paths(rnd, parse(vars0), 'vars', leaf, dicts)
+        cands = list(leaf) + ['vars.fresh', (rnd.choice(dicts) if dicts else 'vars') + '.fresh2.er', 'check_interval', 'notes']
+        rnd.shuffle(cands)
+        ps = []
+        for c in cands:
+            t = c.split('.')
+            if all(t[:len(u)] != u and u[:len(t)] != t for u in (x.split('.') for x in ps)):
+                ps.append(c)
+        paths.append(ps[:rnd.randint(1, 3)])
+        sfx = str(i) if i else ''
+        head += ' vars%s=%s notes%s=%s ci%s=%s' % (sfx, vars0, sfx, hx(rnd.choice(['n0', 'note "x"', 'n%d' % i])), sfx, rnd.choice(['300', '60']))
+    lines = ['now %d' % T0, head]
+    t = T0
+
+    def scalar(p):
+        if p == 'check_interval': return 'D' + rnd.choice(POSNUMS)
+        if p == 'notes': return 'S' + hx(rnd.choice(strs))
+        c = rnd.random()
+        if c < 0.4: return 'D' + rnd.choice(NUMS + NUMS7)
+        if c < 0.7: return 'S' + hx(rnd.choice(strs))
+        if c < 0.85: return 'A(' + ','.join('D' + rnd.choice(NUMS) for _ in range(rnd.randint(0, 3))) + ')'
+        return rnd.choice(['T', 'F', 'N'])
+    # make sure at least two objects are modified before the first dump (blocks for several objects in the file)
+    first = rnd.sample(range(n), rnd.randint(2, n))
+    for rounds in range(rnd.randint(1, 3)):
+        todo = list(first) if rounds == 0 else []
+        for i in range(rnd.randint(2, 6)):
+            t += rnd.choice((1, 2, 7, 60, 3600))
+            o = todo.pop() if todo else rnd.randrange(n)
+            p = rnd.choice(paths[o])
+            lines.append('now %d' % t)
+            if rnd.random() < 0.78 or todo or rounds == 0 and i < len(first):
+                lines.append('ps_mod obj=%d path=%s val=%s' % (o, hx(p), scalar(p)))
+            else:
+                lines.append('ps_res obj=%d path=%s' % (o, hx(p)))
+        t += rnd.choice((1, 30))
+        lines += ['now %d' % t, rnd.choice(['ps_dma', 'ps_restart', 'ps_restart'])]
+    order = [(o, p) for o in range(n) for p in paths[o]]
+    rnd.shuffle(order)
+    for o, p in order:
+        t += rnd.choice((1, 5))
+        lines += ['now %d' % t, 'ps_res obj=%d path=%s' % (o, hx(p))]
+    lines.append(rnd.choice(['ps_dma', 'ps_restart']))     # everything restored: the file must replay to nothing
+    return {'lines': lines, 'tags': {'family': 'pop-history'}}
+
+
+# sizes around the buffer boundaries of the readers/writers: StreamReadContext::FillFromStream reads 4096-byte chunks up to
+# 64 KiB per call (lib/base/stream.cpp), boost::iostreams buffers 4096 bytes, JSON-RPC caps anonymous messages at 1 MiB
+# (the cap a state file must NOT have), netstring length prefixes grow a digit at 10^k
+BIG_QUICK = [4095, 4096, 4097, 65535, 65536, 65537, 99999, 1048575, 1048576, 1048577]
+BIG_THOROUGH = BIG_QUICK + [999999, 1000000, 2097152, 4194303, 4194304, 4194305, 9999999, 10000000]
+PATTERNS = ['78', '225c', 'e282ac', '0a', '6162636465666768', '5c6e', 'c3bc']
+
+
+def mk_big(rnd, tier):
+    out = []
+
+    def S(fam, *ls):
+        out.append({'lines': ['now %d' % T0] + list(ls), 'tags': {'family': fam}})
+    sizes = BIG_THOROUGH if tier == 'thorough' else BIG_QUICK
+    # long strings in the three places a passive check result can put them, on host and service
+    for n in sizes:
+        pat = rnd.choice(PATTERNS) if n < 1048000 or tier == 'thorough' else rnd.choice(['78', '225c', 'e282ac'])
+        pl = len(pat) // 2
+        n = n - n % pl if pat in ('e282ac', 'c3bc') else n                 # whole UTF-8 sequences only
+        where = rnd.choice(['out', 'cmd', 'perf', 'exec']) if n < 1048000 else 'out'
+        svc = rnd.randint(0, 1)
+        on = 'svc' if svc and rnd.random() < 0.5 else 'host'
+        big = 'R%dx%s' % (n, pat)
+        if where == 'out': op = 'ps_cr on=%s state=2 out=%s' % (on, big)
+        elif where == 'cmd': op = 'ps_cr on=%s state=1 out=6f cmd=A(S%s,%s)' % (on, hx('/bin/x'), big)
+        elif where == 'perf': op = 'ps_cr on=%s state=1 out=6f perf=A(%s,S%s)' % (on, big, hx('a=1'))
+        else: op = 'ps_exec on=%s val=M(%s:M(%s:%s))' % (on, hx('id'), hx('output'), big)
+        S('state-big-string', 'ps_snew svc=%d' % svc, op, 'ps_cr on=host state=0 out=%s' % hx('later') if on == 'svc' else 'ps_ack on=host author=61 comment=62 type=1 expiry=0', 'ps_dumprestore')
+    # one record well above 1 MiB in EVERY tier and seed, plus a second object after it in the file
+    S('state-big-string', 'ps_snew svc=1', 'ps_cr on=host state=2 out=R1500000x%s' % rnd.choice(['78', '225c']),
+      'ps_cr on=svc state=1 out=%s perf=A(S%s)' % (hx('after the big one'), hx('x=1')), 'ps_dumprestore')
+    # large containers
+    for v in (['G100000(D1)', 'G100000(S%s)' % hx('ab'), 'K100000(D7)', 'G5000(M(%s:D1,%s:A(S%s)))' % (hx('a'), hx('b'), hx('c'))] if tier == 'thorough'
+              else ['G100000(D%s)' % rnd.choice(['1', '0.5']), 'K30000(S%s)' % hx('v')]):
+        if v[0] == 'K':
+            S('state-big-container', 'ps_snew svc=0', 'ps_exec on=host val=%s' % v, 'ps_dumprestore')
+        else:
+            S('state-big-container', 'ps_snew svc=0', 'ps_cr on=host state=1 out=6f perf=%s' % v, 'ps_dumprestore')
+    # many objects in one state file
+    for n in ([1000, 3000] if tier == 'thorough' else [1000]):
+        S('state-many-objects', 'ps_snew svc=1 n=%d' % n, 'ps_crall n=%d outlen=%d state=%d' % (n, rnd.choice((10, 200)), rnd.randint(0, 3)),
+          'ps_cr on=svc state=2 out=%s' % hx('svc'), 'ps_dumprestore')
+    # nesting around the JSON decoder's limit (128 containers; the record adds 3 around a check result's command /
+    # performance_data, 2 around executions): deeper values are the recorded finding state-depth-limit
+    for k in ([1, 60, 122, 123, 124, 125, 126, 127, 128, 129, 200, 1000] if tier == 'thorough' else [123, 124, 125, rnd.choice([126, 127, 200])]):
+        S('state-depth', 'ps_snew svc=1', 'ps_cr on=host state=1 out=6f perf=A(W%d(D1))' % k, 'ps_cr on=svc state=2 out=%s' % hx('sv'), 'ps_dumprestore')
+    for k in ([124, 125, 126] if tier == 'thorough' else [rnd.choice([125, 126])]):
+        S('state-depth', 'ps_snew svc=0', 'ps_cr on=host state=1 out=6f cmd=W%d(S%s)' % (k, hx('c')), 'ps_dumprestore')
+        S('state-depth', 'ps_snew svc=0', 'ps_exec on=host val=V%d(D1)' % (k + 1), 'ps_dumprestore')
+    return out
+
+
+FAULTS = [('write', 'ENOSPC'), ('write', 'EIO'), ('write', 'EDQUOT'), ('fsync', 'EIO'), ('fsync', 'ENOSPC'), ('rename', 'ENOSPC'),
+          ('rename', 'EACCES'), ('rename', 'EIO'), ('openat', 'ENOSPC'), ('openat', 'EMFILE'), ('openat', 'EACCES'), ('chmod', 'EPERM')]
+
+
+def mk_faults(rnd, tier):
+    """a write / fsync / rename / mkstemp / chmod of the persisting write FAILS (disk full, I/O error, quota, permissions);
+    the process goes on; the file must be the complete old or the complete new version and loadable"""
+    allf = [(w, c, e, n) for w in ('state', 'modattr', 'objcfg') for c, e in FAULTS
+            for n in range(1, {'write': 8, 'openat': 4}.get(c, 2) + 1)]
+    if tier == 'thorough':
+        pick = allf
+    else:
+        must = [('state', 'write', 'ENOSPC', 1), ('state', 'write', 'ENOSPC', rnd.choice((2, 3, 4))), ('modattr', 'write', 'ENOSPC', 1),
+                ('state', 'fsync', 'EIO', 1), ('state', 'rename', 'ENOSPC', 1), ('objcfg', 'write', 'ENOSPC', 1)]
+        pick = must + rnd.sample([f for f in allf if f not in must and f[3] <= 2], 4)
+    return [{'lines': ['ps_fault what=%s call=%s n=%d err=%s' % (w, c, n, e)], 'tags': {'family': 'atomic-fault'}} for w, c, e, n in pick]
+
+
 def mk_atomic(rnd, tier):
     out = []
     for what in ('state', 'modattr', 'objcfg'):
@@ -340,8 +495,13 @@ def generate(seed, tier):
     for i in range(150 * k): cases.append(mk_history(rnd))
     for i in range(300 * k): cases.append(mk_state_case(rnd, False))
     for i in range(80 * k): cases.append(mk_state_case(rnd, True))
+    for i in range(120 * k): cases.append(mk_population(rnd))
     if tier != 'search':
+        cases += mk_big(rnd, tier)
         cases += mk_atomic(rnd, tier)
+        cases += mk_faults(rnd, tier)
+    else:
+        cases += [c for c in mk_big(rnd, 'quick') if c['tags']['family'] in ('state-big-string', 'state-depth')]
     return cases
 
 
@@ -350,12 +510,14 @@ def canon(lines):
     for l in lines:
         if l.startswith('kill '):
             l = 'kill ok=1 loadable=1' if (l.startswith('kill beyond') or l.startswith('kill ok=1 loadable=1')) else l
+        if l.startswith('fault '):
+            l = 'fault ok=1 loadable=1 finished=1' if (l.startswith('fault beyond') or (l.startswith('fault ok=1 loadable=1') and ' finished=1' in l)) else l
         out.append(l)
     return out
 
 
 def nontrivial(case, impl_lines):
-    return any(l.split()[0] in ('ps_mod', 'ps_dumprestore', 'ps_atomic', 'ps_kill', 'ps_dma') for l in case['lines'])
+    return any(l.split()[0] in ('ps_mod', 'ps_dumprestore', 'ps_atomic', 'ps_kill', 'ps_dma', 'ps_restart', 'ps_fault') for l in case['lines'])
 
 
 def _supplied(case, slot):
@@ -406,6 +568,21 @@ def _classify(case, detail, impl_lines):
         m = re.search(r'diff=(\S+) slots=(\S*)', detail)
         diff = set(m.group(1).split(',')) if m.group(1) != '-' else set()
         slots = set(x for x in m.group(2).split(',') if x)
+        if 'RESTORE-THROWS' in diff:
+            return 'state-restore-throws'
+        lost = set(d[:-2] for d in diff if d.endswith('.*'))
+        if lost:
+            # finding state-depth-limit: every object whose whole state is gone was given a value nested deeper than the
+            # JSON decoder accepts once it sits inside the record (3 containers around command / performance_data, 2 around
+            # executions), and nothing else differs
+            def too_deep(o):
+                for rest, outer in (('last_check_result.command', 3), ('last_check_result.performance_data', 3), ('executions', 2)):
+                    if any(outer + depth(parse(v)) > JSON_DEPTH_LIMIT for v in _supplied(case, o + '.' + rest)):
+                        return True
+                return False
+            if all(too_deep(o) for o in lost) and all(d.endswith('.*') for d in diff) and all(sl.split('.')[0] in lost for sl in slots):
+                return 'state-depth-limit'
+            return 'state-roundtrip'
         if slots and diff == slots and all(any(has_type_key(parse(v)) for v in _supplied(case, s)) for s in slots):
             return 'state-type-key'
         return 'state-roundtrip'
@@ -446,10 +623,16 @@ def _classify(case, detail, impl_lines):
         if any(a != b and b[:len(a)] == a for a in keys for b in keys):
             return 'restore-overlap'
         return 'modattr'
+    if detail.startswith('modattr-version'):
+        return 'modattr-version'
+    if detail.startswith('restart'):
+        return 'restart'
     if detail.startswith('atomic'):
         return 'atomic'
     if detail.startswith('kill'):
         return 'atomic-kill'
+    if detail.startswith('fault'):
+        return 'atomic-fault'
     return 'other'
 
 
@@ -459,17 +642,35 @@ def keep_line(l):
 
 def extra_stats(cases, impl):
     st = {'modify_ok': 0, 'modify_rejected': 0, 'restore_ok': 0, 'restore_rejected': 0, 'dma': 0, 'dumprestore': 0,
-          'state_roundtrip_identical': 0, 'traced_writes': 0, 'kills': 0, 'kill_left_old': 0, 'kill_left_new': 0, 'kill_left_absent': 0}
+          'state_roundtrip_identical': 0, 'traced_writes': 0, 'kills': 0, 'kill_left_old': 0, 'kill_left_new': 0, 'kill_left_absent': 0,
+          'restarts': 0, 'population_reloads': 0, 'objects_reloaded_with_own_version': 0, 'faults': 0, 'fault_left_old': 0, 'fault_left_new': 0,
+          'fault_left_absent': 0, 'largest_string_bytes': 0, 'records_over_1MiB': 0, 'objects_lost_to_depth_limit': 0}
+    for c in cases:
+        for l in c['lines']:
+            for m in re.finditer(r'R(\d+)x', l):
+                st['largest_string_bytes'] = max(st['largest_string_bytes'], int(m.group(1)))
+                if int(m.group(1)) > 1048576 and l.startswith(('ps_cr', 'ps_exec')): st['records_over_1MiB'] += 1
     for c in cases:
         for l in impl.get(c['id'], []):
             if l.startswith('mod ok=1'): st['modify_ok'] += 1
             elif l.startswith('mod ok=0'): st['modify_rejected'] += 1
             elif l.startswith('res ok=1'): st['restore_ok'] += 1
             elif l.startswith('res ok=0'): st['restore_rejected'] += 1
-            elif l.startswith('dma '): st['dma'] += 1
+            elif l.startswith('dma '):
+                st['dma'] += 1
+                if ' obj=0 ' in l: st['population_reloads'] += 1
+                if ' obj=' in l and ' orig=M(' in l and ' orig=M() ' not in l: st['objects_reloaded_with_own_version'] += 1
+            elif l.startswith('rst '):
+                if ' obj=0 ' in l or ' obj=' not in l: st['restarts'] += 1
+                if ' obj=' in l and ' orig=M(' in l and ' orig=M() ' not in l: st['objects_reloaded_with_own_version'] += 1
+            elif l.startswith('fault ok'):
+                st['faults'] += 1
+                for w in ('old', 'new', 'absent'):
+                    st['fault_left_' + w] += l.endswith('which=' + w)
             elif l.startswith('rt '):
                 st['dumprestore'] += 1
                 st['state_roundtrip_identical'] += l.startswith('rt all=1')
+                st['objects_lost_to_depth_limit'] += l.count('.*')
             elif l == 'sysend': st['traced_writes'] += 1
             elif l.startswith('kill ok'):
                 st['kills'] += 1
